@@ -243,7 +243,7 @@ structure GrowsAll (env : Env) (n : Nat) : Prop where
   joinAndLeave : ∀ states name state data ctx r res st,
     Grows st (joinAndLeave env n states name state data ctx r res st).2
   runBranches : ∀ bs params ctx st, Grows st (runBranches env n bs params ctx st).2
-  runItems : ∀ proc sel input items i mc be ctx st, Grows st (runItems env n proc sel input items i mc be ctx st).2
+  runItems : ∀ proc sel input items i mc be ctx bad st, Grows st (runItems env n proc sel input items i mc be ctx bad st).2
 
 theorem growsAll_zero (env : Env) : GrowsAll env 0 := by
   constructor <;> intros <;> simp [runFrom, leave, handleErr, runState, joinAndLeave, runBranches, runItems] <;>
@@ -269,8 +269,8 @@ theorem GrowsAll.thenJoin {a b : St} (h : Grows a b) (states : Json) (name : Str
 theorem GrowsAll.thenBranches {a b : St} (h : Grows a b) (bs : List Json) (params ctx : Json) :
     Grows a (Asl.runBranches env n bs params ctx b).2 := h.trans (ih.runBranches _ _ _ _)
 theorem GrowsAll.thenItems {a b : St} (h : Grows a b) (proc : Json) (sel : Option Json) (input : Json)
-    (items : List Json) (i mc : Nat) (be : Rat) (ctx : Json) :
-    Grows a (Asl.runItems env n proc sel input items i mc be ctx b).2 := h.trans (ih.runItems _ _ _ _ _ _ _ _ _)
+    (items : List Json) (i mc : Nat) (be : Rat) (ctx : Json) (bad : Bool) :
+    Grows a (Asl.runItems env n proc sel input items i mc be ctx bad b).2 := h.trans (ih.runItems _ _ _ _ _ _ _ _ _ _)
 
 set_option hygiene false in
 local macro "grow_step" : tactic => `(tactic|
@@ -402,12 +402,14 @@ theorem grows_runBranches_step (bs : List Json) (params ctx : Json) (st : St) :
     · exact Grows.refl _
 
 theorem grows_runItems_step (proc : Json) (sel : Option Json) (input : Json) (items : List Json) (i mc : Nat)
-    (be : Rat) (ctx : Json) (st : St) :
-    Grows st (runItems env (n + 1) proc sel input items i mc be ctx st).2 := by
+    (be : Rat) (ctx : Json) (bad : Bool) (st : St) :
+    Grows st (runItems env (n + 1) proc sel input items i mc be ctx bad st).2 := by
   cases items with
   | nil => simp only [runItems]; exact grows_waitUntil _ _
   | cons item items =>
     simp only [runItems]
+    split
+    · exact grows_waitUntil _ _
     have g00 : Grows st (if mc ≠ 0 ∧ i ≠ 0 ∧ i % mc = 0 then
         (st.waitUntil be).batch (ctxStateName ctx) (List.replicate (min mc (items.length + 1)) ((fldStr proc "StartAt").getD []))
       else st) := by
@@ -430,9 +432,9 @@ theorem grows_runItems_step (proc : Json) (sel : Option Json) (input : Json) (it
           rw [hr] at g1
           have g1' : Grows st0 (((s1.iterEnd (ctxStateName ctx) i r1).endBranch (isFailed r1)).at st0.clock) :=
             ((g1.iterEnd (ctxStateName ctx) i r1).endBranch _).at _ Rat.le_refl
-          have g2 := ih.runItems proc sel input items (i + 1) mc (rmax be s1.clock) ctx
+          have g2 := ih.runItems proc sel input items (i + 1) mc (rmax be s1.clock) ctx (bad || isFailed r1)
             (((s1.iterEnd (ctxStateName ctx) i r1).endBranch (isFailed r1)).at st0.clock)
-          cases hrest : runItems env n proc sel input items (i + 1) mc (rmax be s1.clock) ctx
+          cases hrest : runItems env n proc sel input items (i + 1) mc (rmax be s1.clock) ctx (bad || isFailed r1)
               (((s1.iterEnd (ctxStateName ctx) i r1).endBranch (isFailed r1)).at st0.clock) with
           | mk rest s2 =>
             rw [hrest] at g2
